@@ -63,7 +63,7 @@ theorem C17_seed_at_most_once (kind : Kind) (c : Nat) (calls : Nat → List Call
   have h := C17_one_owner kind c calls σ
   generalize reach kind c calls σ = s at h
   obtain ⟨sh, ths⟩ := s
-  rcases h.phase' with ⟨_, _, _, ⟨l1, l2⟩, _⟩ | ⟨r, a, _, _, hok, _⟩ | ⟨_, _, _, _, hacct⟩
+  rcases h.phaseC with ⟨_, _, _, ⟨l1, l2⟩, _⟩ | ⟨r, a, _, _, hok, _⟩ | ⟨_, _, _, _, hacct⟩
   · show sh.seedDrops + sh.seedLeaks ≤ 1; omega
   · show sh.seedDrops + sh.seedLeaks ≤ 1
     rcases hok with ⟨_, _, _, _, _, l1, l2⟩ | ⟨_, _, _, _, _, _, _, l1, l2⟩ | ⟨_, _, _, _, _, _, _, l1, l2⟩ |
@@ -85,10 +85,10 @@ theorem C17_one_success (kind : Kind) (c : Nat) (calls : Nat → List Call) (σ 
   generalize reach kind c calls σ = s at h
   obtain ⟨sh, ths⟩ := s
   have hrefs : ∀ u v, Res.ref v ∈ (ths u).results → sh.once = .done ∧ sh.data = .value v :=
-    fun u v hm => h.res' u _ hm
+    fun u v hm => h.resC u _ hm
   refine ⟨?_, hrefs, fun u u' v v' hm hm' => ?_⟩
   · show sh.inits ≤ 1
-    rcases h.phase' with ⟨_, _, hi, _⟩ | ⟨r, a, _, _, hok, _⟩ | ⟨_, _, hi, _⟩
+    rcases h.phaseC with ⟨_, _, hi, _⟩ | ⟨r, a, _, _, hok, _⟩ | ⟨_, _, hi, _⟩
     · omega
     · rcases hok with ⟨_, _, _, _, hi, _⟩ | ⟨_, _, _, _, _, _, hi, _⟩ | ⟨_, _, _, _, _, _, hi, _⟩ |
         ⟨_, _, _, _, _, _, hi, _⟩ | ⟨_, _, _, _, hi, _⟩ | ⟨_, _, _, _, _, _, hi, _⟩ |
@@ -130,8 +130,8 @@ theorem C17_drop_once (kind : Kind) (c : Nat) (calls : Nat → List Call) (σ : 
   have h := C17_one_owner kind c calls σ
   generalize reach kind c calls σ = s at h hq
   obtain ⟨sh, ths⟩ := s
-  have hub := h.nub'
-  rcases h.phase' with ⟨h1, ⟨c', h2⟩, h3, ⟨l1, l2⟩, _⟩ | ⟨r, a, _, h2, _⟩ | ⟨h1, ⟨v, h2⟩, h3, _, hacct⟩
+  have hub := h.nubC
+  rcases h.phaseC with ⟨h1, ⟨c', h2⟩, h3, ⟨l1, l2⟩, _⟩ | ⟨r, a, _, h2, _⟩ | ⟨h1, ⟨v, h2⟩, h3, _, hacct⟩
   · simp only [dropCell, h1, h2, dropArm]
     cases hk : sh.kind <;> simp [Kind.needsDrop, hub, l1, l2, h3]
   · have := hq r; simp only at this; rw [this] at h2; cases h2
@@ -152,8 +152,8 @@ theorem C17_seed_drop_panic (kind : Kind) (c : Nat) (calls : Nat → List Call) 
   have hle := C17_seed_at_most_once kind c calls σ
   generalize reach kind c calls σ = s at h hp hle
   obtain ⟨sh, ths⟩ := s
-  obtain ⟨h1, hk, hge⟩ := h.res' u _ hp
-  rcases h.phase' with ⟨h1', _⟩ | ⟨r, a, h1', _⟩ | ⟨_, ⟨v, h2⟩, _⟩
+  obtain ⟨h1, hk, hge⟩ := h.resC u _ hp
+  rcases h.phaseC with ⟨h1', _⟩ | ⟨r, a, h1', _⟩ | ⟨_, ⟨v, h2⟩, _⟩
   · rw [h1'] at h1; cases h1
   · rw [h1'] at h1; cases h1
   · refine ⟨h1, hk, ?_, v, h2, ?_⟩
